@@ -26,12 +26,15 @@ pub struct Sc {
     pub opens: Vec<(bool, usize)>,
     /// datagram payload lengths the endpoint sends
     pub dgrams: Vec<usize>,
+    /// per-stream flow-control window the raw peer grants (0 = quinn's default): with a few bytes of credit the endpoint's
+    /// SETTINGS, HEADERS and stream preambles are written piecemeal, each piece waiting for credit
+    pub peer_window: u32,
 }
 
 impl Sc {
     pub fn to_json(&self) -> Value {
         json!({"server_role": self.server_role, "authority": self.authority, "path": self.path, "headers": self.headers, "decision": self.decision,
-               "skip": self.skip, "opens": self.opens, "dgrams": self.dgrams})
+               "skip": self.skip, "opens": self.opens, "dgrams": self.dgrams, "peer_window": self.peer_window})
     }
     pub fn from_json(v: &Value) -> Sc {
         Sc {
@@ -43,6 +46,7 @@ impl Sc {
             skip: v["skip"].as_u64().unwrap() as usize,
             opens: v["opens"].as_array().unwrap().iter().map(|p| (p[0].as_bool().unwrap(), p[1].as_u64().unwrap() as usize)).collect(),
             dgrams: v["dgrams"].as_array().unwrap().iter().map(|p| p.as_u64().unwrap() as usize).collect(),
+            peer_window: v["peer_window"].as_u64().unwrap_or(0) as u32,
         }
     }
 }
@@ -164,6 +168,52 @@ async fn read_stream_to_end(raw: &Raw, mut r: quinn::RecvStream, ms: u64) -> Vec
     out
 }
 
+type Collected = std::sync::Arc<std::sync::Mutex<Vec<(bool, u64, Vec<u8>)>>>;
+
+/// the raw peer reads every stream the endpoint opens as soon as it appears (a peer that never read the control stream
+/// would never return flow-control credit): (bidi, stream id, bytes so far)
+fn collect_uni(raw: &Raw, into: &Collected) {
+    let (conn, into) = (raw.conn.clone(), into.clone());
+    tokio::spawn(async move {
+        while let Ok(mut r) = conn.accept_uni().await {
+            let id = u64::from(quinn::VarInt::from(r.id()));
+            let into = into.clone();
+            into.lock().unwrap().push((false, id, vec![]));
+            tokio::spawn(async move {
+                let mut buf = [0u8; 4096];
+                while let Ok(Some(n)) = r.read(&mut buf).await {
+                    let mut g = into.lock().unwrap();
+                    g.iter_mut().find(|(b, i, _)| !*b && *i == id).unwrap().2.extend_from_slice(&buf[..n]);
+                }
+                // keep the stream (dropping it would send STOP_SENDING)
+                std::future::pending::<()>().await;
+                drop(r);
+            });
+        }
+    });
+}
+
+fn collect_bi(raw: &Raw, into: &Collected) {
+    let (conn, into) = (raw.conn.clone(), into.clone());
+    tokio::spawn(async move {
+        while let Ok((s, mut r)) = conn.accept_bi().await {
+            let id = u64::from(quinn::VarInt::from(r.id()));
+            let into = into.clone();
+            into.lock().unwrap().push((true, id, vec![]));
+            tokio::spawn(async move {
+                let _keep = s;
+                let mut buf = [0u8; 4096];
+                while let Ok(Some(n)) = r.read(&mut buf).await {
+                    let mut g = into.lock().unwrap();
+                    g.iter_mut().find(|(b, i, _)| *b && *i == id).unwrap().2.extend_from_slice(&buf[..n]);
+                }
+                std::future::pending::<()>().await;
+                drop(r);
+            });
+        }
+    });
+}
+
 fn payload(i: usize, len: usize) -> Vec<u8> {
     (0..len).map(|k| ((k * 17 + i * 101) % 253) as u8).collect()
 }
@@ -171,7 +221,9 @@ fn payload(i: usize, len: usize) -> Vec<u8> {
 pub async fn run(sc: Sc) -> Result<String, String> {
     let world = World::new(5);
     let tw = Tweak::default();
+    let peer_tw = if sc.peer_window == 0 { Tweak::default() } else { Tweak { stream_window: Some(sc.peer_window), ..Default::default() } };
     let mut obs = vec![];
+    let collected: Collected = Default::default();
     // --- session setup with the endpoint under test ---
     let (conn, raw, sid, req_bytes_check): (wtransport::Connection, Raw, u64, String) = if sc.server_role {
         let server_ep = world.wt_server(&tw);
@@ -200,7 +252,8 @@ pub async fn run(sc: Sc) -> Result<String, String> {
         let mut fields = rc::connect_request_fields(&sc.authority, &sc.path);
         fields.extend(sc.headers.iter().cloned());
         let client = async {
-            let raw = Raw::connect(&world, &tw).await?;
+            let raw = Raw::connect(&world, &peer_tw).await?;
+            collect_uni(&raw, &collected);
             let hd = raw.conn.handshake_data().and_then(|h| h.downcast::<quinn::crypto::rustls::HandshakeData>().ok()).ok_or("no handshake data")?;
             if hd.protocol.as_deref() != Some(b"h3") {
                 return Err(format!("negotiated ALPN {:?}", hd.protocol));
@@ -278,11 +331,12 @@ pub async fn run(sc: Sc) -> Result<String, String> {
             _ => (sc.authority.clone(), None),
         };
         let addr = crate::c02::Sc { kind: crate::c02::Kind::WtWt, host, port, path: String::new(), query: None, headers: vec![], decision: 0 }.server_socket();
-        let cfg = world.server_config(&tw);
+        let cfg = world.server_config(&peer_tw);
         let raw_ep = crate::net::quic_endpoint(&world.net, addr, quinn::EndpointConfig::default(), Some(cfg.quic_config().clone()), world.seed);
         let client_ep = world.wt_client_to(world.client_config(&tw), addr);
         let server = async {
             let raw = Raw::accept(raw_ep).await?;
+            collect_uni(&raw, &collected);
             let hd = raw.conn.handshake_data().and_then(|h| h.downcast::<quinn::crypto::rustls::HandshakeData>().ok()).ok_or("no handshake data")?;
             if hd.protocol.as_deref() != Some(b"h3") {
                 return Err(format!("negotiated ALPN {:?}", hd.protocol));
@@ -338,9 +392,9 @@ pub async fn run(sc: Sc) -> Result<String, String> {
         (conn, raw, sid, "request ok".into())
     };
     obs.push(req_bytes_check);
+    collect_bi(&raw, &collected);
 
     // --- the endpoint's unidirectional streams so far: exactly one control stream ---
-    let mut uni_streams: Vec<(u64, quinn::RecvStream)> = vec![];
     // --- streams and datagrams the endpoint opens on request ---
     let mut expect: Vec<(u64, bool, Vec<u8>)> = vec![];
     let mut keep_send = vec![];
@@ -372,28 +426,12 @@ pub async fn run(sc: Sc) -> Result<String, String> {
         }
         keep_send
     });
-    // raw side: collect every uni stream, every bidi stream, every datagram
-    let mut bidi_streams: Vec<(u64, quinn::SendStream, quinn::RecvStream)> = vec![];
-    let n_uni_expected = 1 + sc.opens.iter().filter(|(b, _)| !*b).count();
+    // raw side: every uni stream, every bidi stream (read in the background since the connection exists), every datagram
     let n_bi_expected = sc.opens.iter().filter(|(b, _)| *b).count();
-    let _ = within(2_000, async {
-        while uni_streams.len() < n_uni_expected + 2 {
-            match raw.conn.accept_uni().await {
-                Ok(r) => uni_streams.push((u64::from(quinn::VarInt::from(r.id())), r)),
-                Err(_) => break,
-            }
-        }
-    })
-    .await;
-    let _ = within(1_000, async {
-        while bidi_streams.len() < n_bi_expected + 1 {
-            match raw.conn.accept_bi().await {
-                Ok((s, r)) => bidi_streams.push((u64::from(quinn::VarInt::from(r.id())), s, r)),
-                Err(_) => break,
-            }
-        }
-    })
-    .await;
+    settle_ms(3_000).await;
+    let snapshot = collected.lock().unwrap().clone();
+    let uni_streams: Vec<(u64, Vec<u8>)> = snapshot.iter().filter(|(b, _, _)| !*b).map(|(_, i, v)| (*i, v.clone())).collect();
+    let bidi_streams: Vec<(u64, Vec<u8>)> = snapshot.iter().filter(|(b, _, _)| *b).map(|(_, i, v)| (*i, v.clone())).collect();
     let mut dgrams: Vec<Vec<u8>> = vec![];
     let _ = within(500, async {
         while let Ok(d) = raw.conn.read_datagram().await {
@@ -405,9 +443,7 @@ pub async fn run(sc: Sc) -> Result<String, String> {
     let mut control_seen = 0;
     let mut qpack_seen = [0u8; 2];
     let mut wt_uni_seen = 0;
-    for (id, r) in uni_streams {
-        let is_data = expect.iter().any(|(eid, b, _)| *eid == id && !*b);
-        let bytes = read_stream_to_end(&raw, r, if is_data { 2_000 } else { 300 }).await;
+    for (id, bytes) in uni_streams {
         let (ty, n) = minimal_varint_at(&bytes).map_err(|e| format!("uni stream {id}: {e}"))?;
         match ty {
             0x00 => {
@@ -442,9 +478,7 @@ pub async fn run(sc: Sc) -> Result<String, String> {
         return Err(format!("{wt_uni_seen} WebTransport uni streams seen, {} opened", sc.opens.iter().filter(|(b, _)| !*b).count()));
     }
     let mut wt_bi_seen = 0;
-    for (id, s, r) in bidi_streams {
-        let bytes = read_stream_to_end(&raw, r, 2_000).await;
-        raw.hold(s);
+    for (id, bytes) in bidi_streams {
         let (ty, n) = minimal_varint_at(&bytes).map_err(|e| format!("bidi stream {id}: {e}"))?;
         if ty != rc::reg::FRAME_WEBTRANSPORT_STREAM {
             return Err(format!("endpoint-initiated bidi stream {id} starts with {ty:#x}"));
@@ -498,7 +532,7 @@ pub fn exec(sc: &Sc) -> Outcome {
 pub fn scenarios(tier: Tier) -> Vec<Sc> {
     let thorough = tier == Tier::Thorough;
     let mut out = vec![];
-    let base = Sc { server_role: true, authority: "localhost".into(), path: "/".into(), headers: vec![], decision: 0, skip: 0, opens: vec![], dgrams: vec![] };
+    let base = Sc { server_role: true, authority: "localhost".into(), path: "/".into(), headers: vec![], decision: 0, skip: 0, opens: vec![], dgrams: vec![], peer_window: 0 };
     let authorities = ["localhost", "example.com:4433", "10.0.0.1:65535", "[fd00::1]"];
     let paths = ["/", "/a/b?x=1", "/%20x?", &format!("/{}", "p".repeat(199))];
     let names = crate::c02::header_names(thorough);
@@ -542,6 +576,16 @@ pub fn scenarios(tier: Tier) -> Vec<Sc> {
             out.push(Sc { server_role: role, dgrams: vec![l], ..base.clone() });
         }
     }
+    // the raw peer grants only a few bytes of stream credit at a time
+    for role in [true, false] {
+        for w in if thorough { vec![1u32, 2, 3, 5, 16, 17, 64] } else { vec![1u32, 3, 16] } {
+            out.push(Sc { server_role: role, peer_window: w, ..base.clone() });
+            out.push(Sc { server_role: role, peer_window: w, decision: if role { 1 } else { 0 }, headers: vec![("x-long".into(), "v".repeat(70))], opens: vec![(false, 40), (true, 40)], dgrams: vec![5], ..base.clone() });
+            if role {
+                out.push(Sc { server_role: role, peer_window: w, decision: 4, ..base.clone() });
+            }
+        }
+    }
     // session ids across varint boundaries (server role: the raw client chooses the CONNECT stream)
     let skips: Vec<usize> = if thorough { vec![1, 15, 16, 17, 63, 64, 65, 90] } else { vec![1, 15, 16, 64] };
     for s in skips {
@@ -558,7 +602,7 @@ pub fn run_check(args: &Args) -> i32 {
     let rep = Report::new(
         args,
         "exploration",
-        "scenario = role of the endpoint under test (server facing a raw client / client facing a raw server) x request (4 authorities x 4 paths) x server decision (5) x additional header singleton (names x values pools of C02) x set of streams the endpoint opens (uni/bidi, payload lengths) x datagram payload lengths x CONNECT stream id (session ids 4,60,64,256,... crossing varint lengths); the raw peer records every byte and refcodec must decode it; all scenarios distinct by construction and non-trivial (>= control stream + one HEADERS frame examined)",
+        "scenario = role of the endpoint under test (server facing a raw client / client facing a raw server) x request (4 authorities x 4 paths) x server decision (5) x additional header singleton (names x values pools of C02) x set of streams the endpoint opens (uni/bidi, payload lengths) x datagram payload lengths x CONNECT stream id (session ids 4,60,64,256,... crossing varint lengths), plus raw peers that grant only 1/3/16 (thorough 1,2,3,5,16,17,64) bytes of stream credit at a time; the raw peer records every byte and refcodec must decode it; all scenarios distinct by construction and non-trivial (>= control stream + one HEADERS frame examined)",
     );
     rep.assume("refcodec is the independent implementation of RFC 9114 / 9204 / 9297 / draft-ietf-webtrans-http3; error codes on the wire are compared with the registry in check C12");
     let scs = scenarios(args.tier);
